@@ -75,6 +75,14 @@ let handle (x : Sexp.t) : string =
   let cuts = List.map (function
       | Sexp.List [ce; v] -> (expr_of_sexp ce, num v)
       | _ -> raise (Sexp.Parse_error "cut")) (match Sexp.field_opt "cut" fs with Some l -> l | None -> []) in
+  (* values supplied for inner array-typed expressions: (E iw dw dense|sparse default (i v)..) *)
+  let acuts = List.map (function
+      | Sexp.List (ce :: iw :: dw :: Sexp.Atom ("dense" | "sparse") :: d :: es) ->
+          (expr_of_sexp ce, num iw, num dw, num d,
+           List.rev (List.map (function
+               | Sexp.List [i; v] -> (num i, num v)
+               | x -> raise (Sexp.Parse_error ("bad acut entry " ^ Sexp.to_string x))) es))
+      | x -> raise (Sexp.Parse_error ("bad acut " ^ Sexp.to_string x))) (match Sexp.field_opt "acut" fs with Some l -> l | None -> []) in
   let indices = List.map num (match Sexp.field_opt "indices" fs with Some l -> l | None -> []) in
   let rho = mk_env bvs arrs in
   (* provider: cut entries first (bit-vector valued inner expressions), then bound symbols only *)
@@ -89,6 +97,9 @@ let handle (x : Sexp.t) : string =
                   | Some (_, _, v) -> Some (w, v) | None -> None)
              | _ -> None));
     get_array = (fun ex ->
+        match List.find_opt (fun (ce, _, _, _, _) -> expr_eqb ce ex) acuts with
+        | Some (_, iw, dw, d, es) -> Some ((iw, dw), arr_fun d es)
+        | None ->
         match ex with
         | ArraySymbol (nm, iw, dw) ->
             (match List.find_opt (fun a -> a.a_name = nm && a.a_iw = iw && a.a_dw = dw) arrs with
